@@ -85,15 +85,22 @@ pub fn judge_run_masked(run: &[RunSlot], sfn: &[u8; 11], ord_mask: u8) -> (Lfn, 
     if name.is_empty() && !ambiguous {
         return (Lfn::Broken("empty long name".into()), None, None);
     }
-    if name.len() > 255 {
-        return (Lfn::Broken(format!("{} units > 255", name.len())), None, None);
-    }
     if ambiguous {
         let mut alt = units.clone();
         while matches!(alt.last(), Some(0) | Some(0xFFFF)) {
             alt.pop();
         }
+        if name.len() > 255 && alt.len() > 255 {
+            return (Lfn::Broken(format!("{} units > 255", alt.len())), None, None);
+        }
+        if name.len() > 255 {
+            // only the stripped reading is a name; a reader that counts the padding and gives the run up is right too
+            return (Lfn::Ambiguous, Some(alt), Some(Vec::new()));
+        }
         return (Lfn::Ambiguous, Some(name), Some(alt));
+    }
+    if name.len() > 255 {
+        return (Lfn::Broken(format!("{} units > 255", name.len())), None, None);
     }
     (Lfn::Valid, Some(name), None)
 }
@@ -498,6 +505,34 @@ pub fn special_cases() -> Vec<(String, Vec<[u8; 32]>)> {
         let mut s = mk_lfn_run(&units, &SFN_A);
         s.push(mk_sfn_slot(&SFN_A, 0x20, 0, 0));
         v.push(("proper-run-with-surrogate-pairs".into(), s));
+    }
+    // 20 slots holding 255 units followed by five padding values and NO terminator
+    {
+        let units: Vec<u16> = (0..255).map(|i| 0x61 + (i % 26) as u16).collect();
+        let mut s = mk_lfn_run(&units, &SFN_A);
+        // (mk_lfn_run put the terminator into unit 255 = the 9th unit of the first stored slot: make it padding)
+        let padded = {
+            let mut part = [0xFFFFu16; 13];
+            part[..8].copy_from_slice(&units[247..255]);
+            mk_lfn_slot(0x40 | 20, sfn_checksum(&SFN_A), &part, 0x0F, 0, 0)
+        };
+        s[0] = padded;
+        s.push(mk_sfn_slot(&SFN_A, 0x20, 0, 0));
+        v.push(("run-of-255-units-padded-without-terminator".into(), s));
+    }
+    // a run whose checksum is that of the DISPLAYED name (0xE5 lead byte) in front of the stored name (0x05 lead byte):
+    // the checksum covers the 11 bytes as stored, the run is foreign; and the genuine run of that entry
+    {
+        let stored: [u8; 11] = *b"\x05BCDEFGHTXT";
+        let mut shown = stored;
+        shown[0] = 0xE5;
+        let units: Vec<u16> = "foreign.txt".encode_utf16().collect();
+        let mut s = mk_lfn_run(&units, &shown);
+        s.push(mk_sfn_slot(&stored, 0x20, 0, 0));
+        v.push(("run-with-checksum-of-displayed-0xe5-name".into(), s));
+        let mut s = mk_lfn_run(&units, &stored);
+        s.push(mk_sfn_slot(&stored, 0x20, 0, 0));
+        v.push(("run-in-front-of-0x05-name".into(), s));
     }
     // a proper run of n slots in which one slot (any position) is marked deleted
     for n in 1..=7usize {
